@@ -84,8 +84,10 @@ def markers(param, subset, rng, polarity):
         for l in subset:
             out[l] = "S%s_{{.InterfaceName}}" % L[l]
     elif param == "template-data":
+        # "shape": the same key holds a map at one level and a scalar / list / map at the next more specific one: the more specific value wins as it is
+        shapes = {"root": {"m": {"fromR": 1}}, "pkg": "scalar-P", "iface": {"m": {"fromI": 1}, "n": 2}, "cfg": [1, "two"]}
         for l in subset:
-            out[l] = {"k": "v" + L[l], "only" + L[l]: True, "nest": {"shared": "n" + L[l], "from" + L[l]: 1, "deep": {"d": "dd" + L[l], "x" + L[l]: 2}}}
+            out[l] = {"k": "v" + L[l], "only" + L[l]: True, "nest": {"shared": "n" + L[l], "from" + L[l]: 1, "deep": {"d": "dd" + L[l], "x" + L[l]: 2}}, "shape": shapes[l]}
     elif param == "replace-type":
         for n, l in enumerate(subset):
             k = LEVELS.index(l) + 1
